@@ -54,12 +54,6 @@ func vfInstallRoute(p string) (ok bool) {
 	return p == "/install.html" || strings.HasPrefix(p, "/control/install/")
 }
 
-// vfHandler is the handler the production HTTP servers serve: the mux behind
-// the request-body limiter.
-func vfHandler() (h http.Handler) {
-	return withMiddlewares(globalContext.mux, limitRequestBody)
-}
-
 // vfSnapshot is the cheap global side-effect sentinel.
 type vfSnapshot struct {
 	ConfSum   string
